@@ -390,7 +390,7 @@ func (su *suite) run(sc *scenario) {
 	// ---- fair phase
 	// the fair suffix starts when the last message of the fault phase (delayed, duplicated, stale, forged ones included) has been
 	// delivered and one conversation timeout has passed since: what the adversary left behind is flushed first, not counted as a round
-	s.phase = "lush"
+	s.phase = "drain"
 	s.releaseDue(true)
 	flushed := len(s.inflight)
 	stepCap := 4000 + 400*len(s.nodes)*sc.pages()
